@@ -790,7 +790,7 @@ func shadowIn(t *rapid.T, s *StructSpec, o GenOptions, from int, label string) b
 	if rapid.IntRange(0, 2).Draw(t, label+".samekind") == 0 && outer.Default == nil {
 		outer.Kind = c.leaf.Kind
 		outer.AutoTime, outer.Size, outer.Extra = "", 0, nil
-		if outer.DistinctValue && c.leaf.Kind.distinct == nil {
+		if outer.DistinctValue && (c.leaf.Kind.distinct == nil || c.leaf.Kind.Family == FBool) {
 			outer.DistinctValue, outer.Unique = false, false
 			if outer.Index == "uniqueIndex" || outer.Index == "index:,unique" {
 				outer.Index = "index"
